@@ -177,7 +177,14 @@ def ser_dict(d: Dict[Any, Any], strhook: StrHook = None) -> bytes:
 
 
 def ser_indirect(n: int, g: int, o: Any, strhook: StrHook = None, stream_data: Optional[bytes] = None,
-                 stream_eol: bytes = b"\n") -> bytes:
+                 stream_eol: bytes = b"\n", obj_sep: bytes = b"\n") -> bytes:
+    """obj_sep: what separates the `obj` keyword from the value (white space; b"" = nothing when the value
+    starts with a delimiter, 7.2.2: delimiters need no white space around them)."""
+    if obj_sep != b"\n":
+        body = ser_indirect(n, g, o, strhook, stream_data, stream_eol)
+        head = b"%d %d obj" % (n, g)
+        rest = body[len(head) + 1:]
+        return head + (obj_sep if (obj_sep or rest[:1] in b"<[(/") else b" ") + rest
     if isinstance(o, Stream):
         d = dict(o.d)
         data = o.data if stream_data is None else stream_data
@@ -228,6 +235,7 @@ class Doc:
         eol: bytes = b"\n",
         xref_compress: bool = True,
         stream_eol: bytes = b"\n",
+        obj_sep: bytes = b"\n",
     ) -> bytes:
         """Render the document.
 
@@ -262,11 +270,11 @@ class Doc:
                     d = dict(o.d)
                     data = encryptor.stream(n, g, o.data, d)
                     d.setdefault("Length", len(data))
-                    out.extend(ser_indirect(n, g, Stream(d, data), hook, stream_eol=stream_eol))
+                    out.extend(ser_indirect(n, g, Stream(d, data), hook, stream_eol=stream_eol, obj_sep=obj_sep))
                 else:
-                    out.extend(ser_indirect(n, g, o, hook))
+                    out.extend(ser_indirect(n, g, o, hook, obj_sep=obj_sep))
             else:
-                out.extend(ser_indirect(n, g, o, stream_eol=stream_eol))
+                out.extend(ser_indirect(n, g, o, stream_eol=stream_eol, obj_sep=obj_sep))
 
         for n in sorted(self.objs):
             if n in packed:
